@@ -41,6 +41,9 @@ struct SetScriptsScenario<'a> {
     reference: RefCell<BTreeMap<Key, Reg>>,
     immediate: RefCell<Vec<(String, String)>>,
     commands_applied: RefCell<u64>,
+    /// block bodies arrive after everything else in flight (several matched-blocks records
+    /// are pending at the same time)
+    slow_blocks: bool,
 }
 
 impl<'a> SetScriptsScenario<'a> {
@@ -54,6 +57,7 @@ impl<'a> Scenario for SetScriptsScenario<'a> {
         let mut world = World::new(vec![self.chain.clone()], self.cfg.cp_interval);
         world.add_peer(1, 0, self.chain.tip_number());
         world.filter_batch = self.filter_batch;
+        world.slow_blocks = self.slow_blocks;
         crate::verif::client::set_now(crate::verif::world::BASE_TS + 1_000_000);
         let mut sim = match old {
             Some(old) => Sim::recycle(old, self.cfg.clone(), world),
@@ -201,15 +205,15 @@ impl<'a> Scenario for SetScriptsScenario<'a> {
 pub(crate) fn run(opts: &Opts, report: &mut Report) {
     let thorough = opts.thorough();
     // items: (initial script set, filter batch)
-    let items: Vec<(usize, u64)> = if thorough {
-        vec![(0, 5), (1, 5), (0, 3), (1, 1000), (2, 5)]
+    let items: Vec<(usize, u64, bool)> = if thorough {
+        vec![(0, 5, false), (1, 5, false), (0, 3, false), (1, 1000, false), (2, 5, false), (0, 2, true), (1, 3, true), (1, 1, true), (2, 2, false)]
     } else {
-        vec![(0, 5), (1, 5)]
+        vec![(0, 5, false), (1, 5, false), (1, 2, true)]
     };
     let n_items = items.len();
     let worker = crate::verif::props::shard::run("C09", opts, report, n_items, 16, |item, report| {
         let env = Env::dummy();
-        let (init_id, batch) = items[item];
+        let (init_id, batch, slow_blocks) = items[item];
         let chain = crate::verif::props::c03::worlds(&env)[0].1.clone();
         let s = &env.scripts;
         let (lo, hi) = (1u64, 10u64);
@@ -238,10 +242,11 @@ pub(crate) fn run(opts: &Opts, report: &mut Report) {
             reference: RefCell::new(BTreeMap::new()),
             immediate: RefCell::new(vec![]),
             commands_applied: RefCell::new(0),
+            slow_blocks,
         };
         let bound = if thorough { 2 } else { 1 };
         let max_runs = if thorough { 12_000 } else { 2_000 };
-        let name = format!("W1/init{}/batch{}", init_id, batch);
+        let name = format!("W1/init{}/batch{}{}", init_id, batch, if slow_blocks { "/slow-blocks" } else { "" });
         let stats = {
             let mut judge = |sim: &Sim, outcome: &RunOutcome, devs: &[(usize, Dev)], extra: &[(String, String, usize)]| {
                 let regs = sc.regs();
@@ -297,4 +302,30 @@ pub(crate) fn run(opts: &Opts, report: &mut Report) {
     report.set("distinct_nontrivial", json!(report.get("states")));
     report.set("rule", json!("a run = the honest sync history with <= bound set_scripts commands inserted (24 commands x every step); states = distinct final (store, peers) fingerprints; transitions = executed steps; invariants after every step, reference index at quiescence"));
     report.set("bounds", json!({"commands_per_run": if thorough { 2 } else { 1 }, "commands": "{all, partial, delete} x 8 lists", "world": "W1-std13"}));
+}
+
+#[allow(dead_code)]
+pub(crate) fn debug_case() {
+    let env = Env::dummy();
+    let chain = crate::verif::props::c03::worlds(&env)[0].1.clone();
+    let s = &env.scripts;
+    let sc = SetScriptsScenario {
+        env: &env,
+        chain,
+        initial: vec![Reg { script: s.a.clone(), is_lock: true, start: 0 }, Reg { script: s.b.clone(), is_lock: true, start: 0 }],
+        cfg: ClientCfg { last_n: 3, cp_interval: 4, ..Default::default() },
+        filter_batch: 5,
+        lists: vec![vec![(s.c.clone(), true, 10)]],
+        reference: RefCell::new(BTreeMap::new()),
+        immediate: RefCell::new(vec![]),
+        commands_applied: RefCell::new(0),
+        slow_blocks: true,
+    };
+    let mut v = vec![];
+    let (sim, out) = explore::run(&sc, None, &[], 0, true, &mut v);
+    for l in &out.trace {
+        println!("{}", l);
+    }
+    println!("converged={} steps={}", out.converged, out.steps);
+    let _ = sim;
 }
